@@ -4,6 +4,7 @@ import GoatProofs.Lemmas.C10Digits
 import GoatProofs.Lemmas.C10Int
 import GoatProofs.Lemmas.C10ND
 import GoatProofs.Lemmas.C10Claims
+import GoatProofs.Lemmas.C10Paths
 /-
 C10 — "Registered claims and custom claims survive a trip through the library unchanged …
 Numeric dates preserve instants to the nanosecond over the whole supported range, and a value that
@@ -324,6 +325,50 @@ example : ((Custom.encode 10 true outerTy outerVal).run demoOracle) = .ok (.obj 
     non-nil pointers) -/
 example : ((Custom.encode 10 true (.ptr .string) (.ptr none)) >>= fun w => Custom.decode 10 (.ptr .string) w).run demoOracle =
     .ok (.ptr (some (.str ""))) := rfl
+
+/-! ## index paths of the flattened field list -/
+
+open GoatProofs.Lemmas.C10Paths in
+/-- **typeFields_paths_valid** — for every type `t` (any embedding depth, by value or through
+    pointers, any number of fields) and every entry `f` of `typeFields t`: following `f.index` from
+    `t` — selecting at each step an existing field of the struct reached so far, looking through one
+    embedded pointer — ends exactly at the field type recorded in `f`.  In particular sibling fields
+    of one embedded struct get the *different* last indices `…, i` of their own positions: a field
+    list whose entries share one index slice (the `append(parent.index, i)` slip) violates this. -/
+theorem typeFields_paths_valid (t : Ty) (f : FlatField) (hf : f ∈ typeFields t) :
+    typeAt f.index t = some f.ty :=
+  GoatProofs.Lemmas.C10Paths.typeFields_paths_valid t f hf
+
+open GoatProofs.Lemmas.C10Paths in
+/-- the field walk of both reflect walkers never calls `Field(i)` out of range on a path computed
+    by `typeFields`, for any value (this is the `hwalk` hypothesis of C07's
+    `no_panic_custom_decode_of_walk`) -/
+theorem typeFields_walk_no_panic (t : Ty) (f : FlatField) (sv : Val) (hf : f ∈ typeFields t) :
+    ∀ s, walkGet true f.index t true sv ≠ .panic s :=
+  GoatProofs.Lemmas.C10Paths.typeFields_walk_no_panic t f sv true true hf
+
+/-- four levels of embedding, alternately by value and by pointer, innermost struct with three
+    tagged fields: each sibling keeps its own index (evaluated) -/
+def deepL1 : Ty := .struct "L1" [.mk "A" "a" false true .string, .mk "B" "b" false true (.int 32), .mk "C" "c" false true .bool]
+def deepL2 : Ty := .struct "L2" [.mk "L1" "" true true (.ptr deepL1), .mk "D" "d" false true .string]
+def deepL3 : Ty := .struct "L3" [.mk "E" "e" false true (.uint 8), .mk "L2" "" true true deepL2]
+def deepL4 : Ty := .struct "L4" [.mk "L3" "" true true (.ptr deepL3), .mk "F" "f" false true .string]
+def deepTop : Ty := .struct "Top" [.mk "L4" "" true true deepL4, .mk "G" "g" false true (.int 64)]
+
+example : (typeFields deepTop).map (fun f => (f.name, f.index)) =
+    [("g", [1]), ("f", [0, 1]), ("e", [0, 0, 0]), ("d", [0, 0, 1, 1]),
+     ("a", [0, 0, 1, 0, 0]), ("b", [0, 0, 1, 0, 1]), ("c", [0, 0, 1, 0, 2])] := rfl
+
+def deepVal : Val := .strct [
+  .strct [.ptr (some (.strct [.uint 9, .strct [.ptr (some (.strct [.str "x", .int (-3), .bool true])), .str "dd"]])), .str "ff"],
+  .int 77]
+
+example : ((Custom.encode 12 true deepTop deepVal).run demoOracle) = .ok (.obj [
+    ("g", .num "77"), ("f", .str "ff"), ("e", .num "9"), ("d", .str "dd"),
+    ("a", .str "x"), ("b", .num "-3"), ("c", .bool true)]) := rfl
+
+example : ((Custom.encode 12 true deepTop deepVal) >>= fun w => Custom.decode 12 deepTop w).run demoOracle =
+    .ok deepVal := rfl
 
 /-! ## claims_roundtrip (partial: audience and string claims) -/
 
